@@ -87,8 +87,9 @@ Parsed(lines) == [k \in 1..Len(lines) |-> Parse(lines[k])]
 NoStart == [has |-> FALSE, hi |-> 0, lo |-> 0]
 RdInit == [ctx |-> Ctx0, cov |-> <<>>, start |-> NoStart, eof |-> FALSE, ndata |-> 0,
            nbad |-> 0, nforeign |-> 0, ndup |-> 0, nafter |-> 0, ev |-> "init"]
-\* only the first offence of a kind is an event of its own
-Ev(n, name) == IF n = 0 THEN name ELSE "more"
+\* only the first three offences of a kind are events of their own (keeps the number of
+\* reported states small when every record of a long file is wrong)
+Ev(n, name) == IF n < 3 THEN name ELSE "more"
 
 RdAfterEof(rd) == [rd EXCEPT !.nafter = @ + 1, !.ev = Ev(rd.nafter, "after")]
 RdBad(rd)      == [rd EXCEPT !.nbad = @ + 1, !.ev = Ev(rd.nbad, "bad")]
